@@ -8,18 +8,19 @@ import (
 	"fmt"
 	"strings"
 
+	"crypto/aes"
+	"crypto/cipher"
 	"github.com/corestario/kyber"
 	"github.com/corestario/kyber/encrypt/ecies"
 	dkgPedersen "github.com/corestario/kyber/share/dkg/pedersen"
-	"github.com/corestario/kyber/sign/schnorr"
 	vssPedersen "github.com/corestario/kyber/share/vss/pedersen"
+	"github.com/corestario/kyber/sign/schnorr"
 	"go.dedis.ch/protobuf"
 	"golang.org/x/crypto/hkdf"
-	"crypto/aes"
-	"crypto/cipher"
 
 	"github.com/lidofinance/dc4bc/client/api/dto"
 	ctypes "github.com/lidofinance/dc4bc/client/types"
+	"github.com/lidofinance/dc4bc/fsm/types/requests"
 	"github.com/lidofinance/dc4bc/fsm/types/responses"
 )
 
@@ -360,7 +361,36 @@ func scenarioC11(c *Ctx) {
 		}
 	}
 	c11Reinit(c)
+	c11ReportBeforeLastDeal(c)
 	c.Notes["ceremonies"] = runs + 1
+}
+
+// c11ReportBeforeLastDeal: deals are one board message per addressee, so the deviating dealer chooses
+// their order.  It posts the contradicting deal for the victim first and holds back the bystander's
+// deal until the victim's error report is on the board.  The bystander is still waiting for deals when
+// the report arrives; the report must cancel the round there too ("the round ends cancelled on every
+// node"), whatever phase the bystander is in.
+func c11ReportBeforeLastDeal(c *Ctx) {
+	w := NewWorld(3, 2, 1)
+	me, victim, dealer := w.Users[0], 1, 2
+	round := "round-c11-late-deal"
+	h := w.Honest(round, me)
+	// init, 3 confirmations, 3 commits, deals from 0 (self), 1, 2, ...
+	prefix := append([]Item{}, h[:9]...) // up to and including the victim's deal for the bystander
+	lastDeal := h[9]                     // the dealer's deal for the bystander, held back
+	report := w.Msg(round, "event_dkg_response_confirm_canceled_by_error",
+		requests.DKGProposalConfirmationErrorRequest{ParticipantId: victim, Error: requests.NewFSMError(fmt.Errorf("failed to process deals: commits are different")), CreatedAt: T(41)},
+		w.Users[victim], "", w.Users[victim], NOWMARK, "victim-reports-the-deal")
+	_ = dealer
+	items := append(append(prefix, report), lastDeal)
+	runCases(c, []HistCase{{Kind: "report-before-last-deal", User: me, Items: items, Check: func(o RunObs) {
+		st := roundProj(o.After, round)
+		if !strings.Contains(st, "canceled_by_error") && !strings.Contains(st, "cancelled_by_error") {
+			c.Fail(Failure{Property: "C11", Kind: "error-report-lost", Signature: map[string]interface{}{"kind": "error-report-lost", "phase": "deals"},
+				What:   "the addressee's error report reaches a node that is still waiting for the dealer's (held back) deal: it is refused and lost there, the node goes on to wait for responses and its round is never cancelled (" + firstWord(st) + ")",
+				Replay: map[string]interface{}{"classes": strings.Join(o.Classes, ","), "round": st}})
+		}
+	}}})
 }
 
 func c11Judge(c *Ctx, n, t int, dv c11Dev, o c11Obs) {
